@@ -1,4 +1,5 @@
-(* C20 - model of adcgen.simplify.simplify_unitary (simplify.py:332-429).
+(* C20 - model of adcgen.simplify.simplify_unitary (simplify.py:332-446, after
+   the fix: commits 07796aa, f9ef81e, 38083c0).
 
    A term is the flattened factor list of Core/Expr.v (a power U^n is n copies
    of the factor, U^-n is n inverted copies), in the order of sympy's
@@ -43,14 +44,18 @@ Definition bad_u (name : string) (f : factor) : bool :=
 (* what a matching pair yields: (second position?, common p, remaining q, r) *)
 Definition winfo := (bool * index * index * index)%type.
 
-(* the if / elif of the loop body *)
+(* "U_pq U_pq = delta_qq = 1: if q is a contracted index that occurs nowhere
+   else, the sum over q would be lost" -> continue *)
+Definition skip_pair (tg ix : list index) (q r : index) : bool :=
+  index_eqb q r && negb (imem q tg) && Nat.eqb (icount q ix) 2.
+(* the if / elif of the loop body followed by the skip test *)
 Definition pair_rem (tg ix : list index) (i1 i2 : index * index) : option winfo :=
   let '(a0, a1) := i1 in
   let '(b0, b1) := i2 in
   if index_eqb a0 b0 && negb (imem a0 tg) && Nat.eqb (icount a0 ix) 2
-  then Some (false, a0, a1, b1)
+  then (if skip_pair tg ix a1 b1 then None else Some (false, a0, a1, b1))
   else if index_eqb a1 b1 && negb (imem a1 tg) && Nat.eqb (icount a1 ix) 2
-  then Some (true, a1, a0, b0)
+  then (if skip_pair tg ix a0 b0 then None else Some (true, a1, a0, b0))
   else None.
 Definition try_pair (name : string) (tg ix : list index) (x y : factor) : option winfo :=
   match named name x, named name y with
@@ -126,15 +131,35 @@ Definition unitary_pass_tg (name : string) (tg : list index) (t : term) : result
 Definition unitary_pass (name : string) (prov : option (list index)) (t : term) : result :=
   unitary_pass_tg name (targets_of prov t) t.
 
-(* the recursion, with the model's own factor order between the levels *)
+(* "the remaining product might be a sum, e.g. 1 * (a + b)": when all that is
+   left is one sum (sympy distributes the rational prefactor over it),
+   new_term has several terms and each is simplified on its own *)
+Definition summand (c : Q) (qt : Q * list tens) : term :=
+  Term (c * fst qt) (map (fun u : tens => (ATens u, false)) (snd qt)).
+Definition split_sum (t : term) : list term :=
+  match tfacs t with
+  | [(APoly p, false)] => if Nat.leb 2 (List.length p) then map (summand (tcoef t)) p else [t]
+  | _ => [t]
+  end.
+
+Fixpoint iter_all (g : term -> option (list term)) (ts : list term) : option (list term) :=
+  match ts with
+  | [] => Some []
+  | t :: r => match g t, iter_all g r with
+              | Some a, Some b => Some (a ++ b)
+              | _, _ => None
+              end
+  end.
+(* the recursion, with the model's own factor order between the levels;
+   the result is the list of terms whose sum is returned *)
 Fixpoint unitary_iter (fuel : nat) (name : string) (prov : option (list index)) (t : term)
-  : option term :=
+  : option (list term) :=
   match fuel with
   | O => None
   | S f => match unitary_pass name prov t with
            | RErr => None
-           | RNone => Some t
-           | RStep _ t' => unitary_iter f name prov t'
+           | RNone => Some [t]
+           | RStep _ t' => iter_all (unitary_iter f name prov) (split_sum t')
            end
   end.
 
@@ -196,6 +221,24 @@ Definition safe_step (sp : space) (sn : spin) (tg : list index) (w : winfo) (t' 
   let '(_, p, q, r) := w in
   sort_is sp sn p && sort_is sp sn q && sort_is sp sn r &&
   (negb (index_eqb q r) || imem q tg || imem q (term_idx t')).
+
+(* ---------- the premise of the property, as a boolean ----------
+   every tensor called [name] (also inside sums) has all its indices in the
+   sort (sp, sn); every sum factor is homogeneous: each summand carries all
+   non-target indices of the sum (otherwise multiplying the sum out is not
+   value preserving - this is about the input, not about simplify_unitary) *)
+Definition tens_ok (name : string) (sp : space) (sn : spin) (u : tens) : bool :=
+  negb (String.eqb (tname u) name) || forallb (sort_is sp sn) (tens_idx u).
+Definition fac_tens (f : factor) : list tens :=
+  match fst f with ATens u => [u] | APoly p => flat_map (fun qt : Q * list tens => snd qt) p | _ => [] end.
+Definition homog (tg : list index) (p : list (Q * list tens)) : bool :=
+  forallb (fun qt : Q * list tens =>
+             forallb (fun x => imem x tg || imem x (flat_map tens_idx (snd qt))) (poly_idx p)) p.
+Definition fac_ok (name : string) (sp : space) (sn : spin) (tg : list index) (f : factor) : bool :=
+  forallb (tens_ok name sp sn) (fac_tens f) &&
+  match f with (APoly p, false) => homog tg p | _ => true end.
+Definition wfb (name : string) (sp : space) (sn : spin) (tg : list index) (t : term) : bool :=
+  forallb (fac_ok name sp sn tg) (tfacs t).
 
 (* reachability of [goal] from [t] (modulo factor order) through steps; with
    [safe = true] only through steps that satisfy the side condition and keep
@@ -260,67 +303,145 @@ Definition delta_action (tg : list index) (f : factor) : option (index * index) 
       else None
   | _ => None
   end.
+(* evaluate_deltas only looks into products: "elif isinstance(expr, Mul)" *)
+Definition is_mul (t : term) : bool :=
+  negb (Qeq_bool (tcoef t) 1) || Nat.leb 2 (List.length (dedup_facs (tfacs t))).
 Fixpoint eval_deltas (fuel : nat) (tg : list index) (t : term) : term :=
   match fuel with
   | O => t
-  | S f => match find_first (delta_action tg) (tfacs t) with
-           | Some (a, b) => eval_deltas f tg (subst_term a b t)
-           | None => t
-           end
+  | S f => if negb (is_mul t) then t
+           else match find_first (delta_action tg) (tfacs t) with
+                | Some (a, b) => eval_deltas f tg (subst_term a b t)
+                | None => t
+                end
   end.
 (* simplify_unitary(expr, name, evaluate_deltas=True) on one term:
-   as coded  - func.evaluate_deltas(res.sympy): targets re-derived from the result;
-   respecting - the expression's provided targets are passed on *)
+   func.evaluate_deltas(res.sympy, target_idx=res.provided_target_idx) - the
+   provided targets are passed on; without provided targets evaluate_deltas
+   re-derives them per term.  [simplify_ed_ignoring_targets] is the behaviour
+   before the repair (kept for the regression example). *)
+Definition ed_targets (prov : option (list index)) (t : term) : list index :=
+  match prov with Some tg => tg | None => targets_by_objects t end.
 Definition simplify_ed_as_coded (fuel : nat) (name : string) (prov : option (list index)) (t : term)
-  : option term :=
+  : option (list term) :=
   match unitary_iter fuel name prov t with
-  | Some t' => Some (eval_deltas fuel (targets_by_objects t') t')
+  | Some ts => Some (map (fun t' => eval_deltas fuel (ed_targets prov t') t') ts)
   | None => None
   end.
-Definition simplify_ed_respecting (fuel : nat) (name : string) (prov : option (list index)) (t : term)
-  : option term :=
+Definition simplify_ed_ignoring_targets (fuel : nat) (name : string) (prov : option (list index)) (t : term)
+  : option (list term) :=
   match unitary_iter fuel name prov t with
-  | Some t' => Some (eval_deltas fuel (match prov with Some tg => tg | None => targets_by_objects t' end) t')
+  | Some ts => Some (map (fun t' => eval_deltas fuel (targets_by_objects t') t') ts)
   | None => None
   end.
 
 (* ---------- verdicts used by the per-run correspondence (harness/props/c20.py) ----------
-   one recursion level of the implementation against [unitary_pass]:
-   [next] = the term handed to the next recursion level (None: returned here),
-   [raised] = the implementation raised NotImplementedError at this level,
-   [tgobs] = term.target as observed. *)
-Definition level_code (name : string) (prov : option (list index)) (t : term)
-           (next : option term) (raised : bool) (tgobs : list index) : nat :=
-  if negb (set_eqb (targets_of prov t) tgobs) then 1
-  else match unitary_pass name prov t, raised, next with
+   The tracer records the tree of calls of simplify_term_unitary for one input
+   term: a node carries the term, term.target as observed, and the calls made
+   from it (none: returned here; one: ordinary replacement; several: the
+   remaining product was a sum). *)
+Inductive otree := ONode (t : term) (tgobs : list index) (kids : list otree).
+Definition oroot (n : otree) : term := match n with ONode t _ _ => t end.
+Definition okids (n : otree) : list otree := match n with ONode _ _ k => k end.
+
+(* bring the observed children into the order of the model's summands *)
+Fixpoint pick (t : term) (ks : list otree) : option (otree * list otree) :=
+  match ks with
+  | [] => None
+  | k :: r => if term_ceqb t (oroot k) then Some (k, r)
+              else match pick t r with Some (k', r') => Some (k', k :: r') | None => None end
+  end.
+Fixpoint align (ts : list term) (ks : list otree) : option (list otree) :=
+  match ts with
+  | [] => match ks with [] => Some [] | _ => None end
+  | t :: ts' => match pick t ks with
+                | Some (k, r) => match align ts' r with Some l => Some (k :: l) | None => None end
+                | None => None
+                end
+  end.
+
+(* one node against [unitary_pass]; [raised]: NotImplementedError at this node *)
+Definition node_code (name : string) (prov : option (list index)) (n : otree) (raised : bool) : nat :=
+  let t := oroot n in
+  if negb (set_eqb (targets_of prov t) (match n with ONode _ tg _ => tg end)) then 1
+  else match unitary_pass name prov t, raised, okids n with
        | RErr, true, _ => 0
        | RErr, false, _ => 2
        | _, true, _ => 6
-       | RNone, _, None => 0
-       | RNone, _, Some _ => 3
-       | RStep _ _, _, None => 4
-       | RStep _ t', _, Some t'' => if term_ceqb t' t'' then 0 else 5
+       | RNone, _, [] => 0
+       | RNone, _, _ :: _ => 3
+       | RStep _ _, _, [] => 4
+       | RStep _ t', _, ks => match align (split_sum t') ks with Some _ => 0 | None => 5 end
        end%nat.
-Fixpoint levels_codes (name : string) (prov : option (list index)) (ts : list term)
-         (raised : bool) (tgs : list (list index)) : list nat :=
-  match ts, tgs with
-  | [t], [tg] => [level_code name prov t None raised tg]
-  | t :: ((t' :: _) as r), tg :: tgr =>
-      level_code name prov t (Some t') false tg :: levels_codes name prov r raised tgr
-  | _, _ => []
+(* preorder list of codes; [raised] applies to the last node visited *)
+Fixpoint tree_codes (fuel : nat) (name : string) (prov : option (list index)) (n : otree)
+         (raised : bool) : list nat :=
+  match fuel with
+  | O => [7%nat]
+  | S f =>
+      let ks := okids n in
+      node_code name prov n (raised && match ks with [] => true | _ => false end)
+      :: (fix go (l : list otree) : list nat :=
+            match l with
+            | [] => []
+            | [k] => tree_codes f name prov k raised
+            | k :: r => tree_codes f name prov k false ++ go r
+            end) ks
   end.
-(* (per-level codes, final result reachable through steps of the relation in
-   any order, reachable through steps covered by unitary_step_sound) *)
+
+(* the terms the implementation returned for this input term *)
+Fixpoint leaves (fuel : nat) (n : otree) : list term :=
+  match fuel with
+  | O => []
+  | S f => match okids n with
+           | [] => [oroot n]
+           | ks => flat_map (leaves f) ks
+           end
+  end.
+
+(* the whole observed tree is explained by steps of the executable pass on
+   well-formed terms that keep the target set: covered by check_tree_sound *)
+Fixpoint check_tree (fuel : nat) (name : string) (sp : space) (sn : spin)
+         (prov : option (list index)) (n : otree) : bool :=
+  match fuel with
+  | O => false
+  | S f =>
+      let t := oroot n in
+      match okids n with
+      | [] => true
+      | ks =>
+          wfb name sp sn (targets_of prov t) t &&
+          match unitary_pass name prov t with
+          | RStep _ t' =>
+              match align (split_sum t') ks with
+              | Some ks' =>
+                  forallb (fun k => set_eqb (targets_of prov (oroot k)) (targets_of prov t)
+                                    && check_tree f name sp sn prov k) ks'
+              | None => false
+              end
+          | _ => false
+          end
+      end
+  end.
+
+Fixpoint ochain (fuel : nat) (n : otree) : option term :=      (* Some leaf if no node has 2 kids *)
+  match fuel with
+  | O => None
+  | S f => match okids n with [] => Some (oroot n) | [k] => ochain f k | _ => None end
+  end.
+
+(* (codes per node in preorder, result reachable in the step relation in any
+   order [chains only], tree covered by check_tree_sound) *)
 Definition check_case (name : string) (sp : space) (sn : spin) (prov : option (list index))
-           (ts : list term) (raised : bool) (tgs : list (list index)) : list nat * bool * bool :=
-  let t0 := hd (Term 0 []) ts in
-  let tn := last ts (Term 0 []) in
-  let fuel := List.length ts in
-  (levels_codes name prov ts raised tgs,
-   reachable false name sp sn prov fuel t0 tn,
-   reachable true name sp sn prov fuel t0 tn).
+           (n : otree) (depth : nat) (raised : bool) : list nat * bool * bool :=
+  (tree_codes (S depth) name prov n raised,
+   match ochain (S depth) n with
+   | Some leaf => reachable false name sp sn prov (S depth) (oroot n) leaf
+   | None => true
+   end,
+   check_tree (S depth) name sp sn prov n).
 
 (* evaluate_deltas=True: the implementation's result for a one-term input
-   whose simplified form carries at most one delta, against the fragment *)
+   whose simplified form carries one delta, against the fragment *)
 Definition ed_code (fuel : nat) (prov : option (list index)) (t' out : term) : nat :=
-  if term_ceqb (eval_deltas fuel (targets_by_objects t') t') out then 0%nat else 1%nat.
+  if term_ceqb (eval_deltas fuel (ed_targets prov t') t') out then 0%nat else 1%nat.
